@@ -315,6 +315,9 @@ class DataFamily:
             return self.gen_fork(rng, idx, opts)
         readers = opts.get('readers', ['R1', 'R2', 'R3', 'R4', 'R5'])
         kinds = self.WRITERS + [r for r in readers if r != 'R3']
+        if rng.random() < opts.get('envheavy', 0.15):
+            # programs that mostly assign and read the process env (which the model declares too)
+            kinds = kinds + ['W9', 'R5', 'R5'] * 6
         g = G(rng, 100, readers)
         wf = g.wf(kinds)
         rt = rng.choice([{'flavor': 'current'}, {'flavor': 'current', 'chaos': {'max_yields': 3, 'seed': rng.randrange(1, 1 << 40)}}, {'flavor': 'multi', 'workers': 2, 'chaos': {'max_yields': 2, 'seed': rng.randrange(1, 1 << 40)}}])
